@@ -37,7 +37,9 @@ class InterruptableThread(threading.Thread):
         """
         try:
             self.result = self.func(*self.args, **self.kwargs)
-        except Exception:
+        except BaseException:
+            # SystemExit included: `exit()` in a file imported in its own
+            # thread must end the importing program too
             self.exc_info = sys.exc_info()
 
     @staticmethod
